@@ -57,7 +57,7 @@ SGX_TARGETS = ["quote", "quote-sig", "att-key", "qe-report", "qe-sig", "auth-dat
                "signer-message", "pubkey", "root"]
 REQUIRED_LABELS = {t: ["plat:ledger", "plat:sgx", "unaltered:ok", "altered:refused", "legacy",
                        "refresh",
-                       "pages>=2", "ud-form:0x", "ud-form:plain", "ud-leading-zero"] + ["alter:" + x for x in LEDGER_TARGETS + SGX_TARGETS]
+                       "pages>=2", "ud-form:0x", "ud-form:plain", "ud-leading-zero", "in-place"] + ["alter:" + x for x in LEDGER_TARGETS + SGX_TARGETS]
                    for t in ("quick", "thorough")}
 h32 = st.binary(min_size=32, max_size=32)
 # 32-byte values, with those that start with zero digits / bytes well represented
@@ -89,6 +89,8 @@ def cases(draw, tier):
          "auth": draw(st.one_of(st.binary(min_size=0, max_size=40), st.just(b""),
                                 st.binary(min_size=0, max_size=1000))),
          "third_cert": draw(st.booleans()), "alter": None,
+         # does the attestation command write to the very file it was given as input?
+         "in_place": draw(st.sampled_from([None, None, "first", "refresh", "both"])),
          "refresh": None}
     if plat == "ledger" and draw(st.integers(0, 2)) == 0:
         # a second attestation run that starts from the file the first one wrote
@@ -221,6 +223,10 @@ def run_case(c):
                 reload_equal(att_key_file, "attestation-key")
             # 2. UI + signer attestation
             att_file = os.path.join(d, "attestation.json")
+            if c.get("in_place") in ("first", "both"):
+                # the operator lets the command update the certificate file it reads
+                att_file = att_key_file
+                labels.append("in-place")
             if not failures:
                 power_cycle(w)
                 opts = types.SimpleNamespace(output_file_path=att_file,
@@ -237,6 +243,9 @@ def run_case(c):
                     c = dict(c, ud=r["ud"], best=r["best"], tx=r["tx"], ts=r["ts"])
                     power_cycle(w)
                     att_file2 = os.path.join(d, "attestation2.json")
+                    if c.get("in_place") in ("refresh", "both"):
+                        att_file2 = att_file
+                        labels.append("in-place")
                     opts = types.SimpleNamespace(
                         output_file_path=att_file2, attestation_certificate_file_path=att_file,
                         **dict(base, attestation_ud_source=ud_arg(c, r["ud"])))
